@@ -5,6 +5,7 @@ import (
 	"fmt"
 	"go/parser"
 	"go/token"
+	"go/types"
 	"os"
 	"path/filepath"
 	"sort"
@@ -264,8 +265,17 @@ func runCheckFull(o CheckOpts) (cr CheckResult) {
 			pkgSet[c.Pkg] = true
 		}
 	}
+	var myConsts []ConstCheck
+	for _, c := range pre.Consts {
+		for _, t := range c.Tags {
+			if t == o.Prop && (o.Only == "" || strings.Contains(c.Name, o.Only)) {
+				myConsts = append(myConsts, c)
+				pkgSet[c.Pkg] = true
+			}
+		}
+	}
 	expected := readExpected(o.Prop)
-	if len(mine) == 0 {
+	if len(mine) == 0 && len(myConsts) == 0 {
 		if len(expected) > 0 && o.Only == "" {
 			violate("contract-files", "contract-does-not-bind", "no contract carries tag "+o.Prop+" any more", false, nil)
 		} else {
@@ -303,6 +313,9 @@ func runCheckFull(o CheckOpts) (cr CheckResult) {
 			}
 		}
 		reports = verifyAll(prog, ix, mine, all, pre.Preds, findings, o)
+		if len(myConsts) > 0 {
+			reports = append(reports, checkConsts(prog, myConsts))
+		}
 	}
 	// ---- verdicts ---------------------------------------------------------
 	type groupInfo struct {
@@ -715,4 +728,31 @@ func trustedBase() []string {
 		"Go slices are no longer than 2^47 elements; single-threaded execution of the verified functions",
 		"IEEE-754 binary32/64 without FMA contraction (true on amd64)",
 	}
+}
+
+// checkConsts discharges the constant obligations by evaluating the declared
+// constants with go/constant (no solver needed: both sides are ground).
+func checkConsts(prog *ssa.Program, cs []ConstCheck) *FnReport {
+	rep := &FnReport{Name: "constants", Mode: "ground"}
+	for _, c := range cs {
+		name := pkgLabel(c.Pkg) + ".const/table:" + c.Name
+		r := Result{Name: name, Group: name, Kind: "table", Fn: "constants", Solver: "go/constant"}
+		pkg := prog.ImportedPackage(c.Pkg)
+		var obj types.Object
+		if pkg != nil {
+			obj = pkg.Pkg.Scope().Lookup(c.Name)
+		}
+		k, ok := obj.(*types.Const)
+		switch {
+		case !ok:
+			r.Verdict = "error:constant " + c.Name + " not found"
+		case k.Val().ExactString() == c.Want:
+			r.Verdict = "unsat"
+		default:
+			r.Verdict = "sat"
+			r.Model = fmt.Sprintf("%s is %s in the source, the specification says %s", c.Name, k.Val().ExactString(), c.Want)
+		}
+		rep.Results = append(rep.Results, r)
+	}
+	return rep
 }
